@@ -421,10 +421,15 @@ func (s *sys) deliver(sn snap, sequential bool) *hist.Violation {
 	return s.observe("after "+sn.String(), sequential)
 }
 
+// cacheDigest is what the linearizability comparison looks at. The raft term is left out: a
+// heartbeat that differs from the cached region in its term only is accepted without
+// refreshing the cache, so which of two such heartbeats' terms ends up cached depends on
+// decisions taken before the other one was applied; both are legitimate (a term that goes
+// *back* is caught by the monotonicity trackers, which do look at it).
 func (s *sys) cacheDigest() string {
 	var l []string
 	for _, r := range s.served() {
-		l = append(l, rstr(r))
+		l = append(l, fmt.Sprintf("r%d[%q,%q)v%d.c%d.L%d.p%d", r.GetID(), r.GetStartKey(), r.GetEndKey(), r.GetRegionEpoch().GetVersion(), r.GetRegionEpoch().GetConfVer(), r.GetLeader().GetStoreId(), len(r.GetPeers())))
 	}
 	return strings.Join(l, " ")
 }
